@@ -37,7 +37,7 @@ def simple_func(name, nbody=1, static=False):
 
 
 # -- 80 columns ---------------------------------------------------------------------------------
-COL_KINDS = ["stmt-string", "stmt-ident", "stmt-expr", "decl", "global", "proto", "define", "line-comment", "block-first", "block-interior",
+COL_KINDS = ["block-first-offstop-tabs", "stmt-string", "stmt-ident", "stmt-expr", "decl", "global", "proto", "define", "line-comment", "block-first", "block-interior",
              "block-last", "block-one", "trailing-comment", "last-line-comment", "last-line-comment-nonl", "ctrl", "funchead", "member", "first-line-comment",
              "last-line-global-nonl", "last-line-global", "line-comment-tabs", "block-one-tabs", "block-one-trailing-blanks", "line-comment-trailing-tab",
              "stmt-trailing-comment-tabs", "block-interior-tabs"]
@@ -140,6 +140,14 @@ def build_cols(d, kind, n, ctx):
         if ln is None:
             return None
         lines = hdr(name) + ["int\tft_a(int a)", "{", ln, "\treturn (a);", "}"]
+        return name, "\n".join(lines) + "\n", len(hdr(name)) + 3
+    if kind == "block-first-offstop-tabs":
+        # a block comment that starts off a tab stop (after code and 1-3 blanks) and has tabs on its first line, continued on the next line
+        lead = ("\tft_put(a);" if ctx["salt"] % 2 else "\ta = a + 1;") + " " * (1 + ctx["salt"] % 3)
+        ln = pad_to(lead + "/*\tc\t" + "\t" * (ctx["salt"] % 2), "", n, "c")
+        if ln is None:
+            return None
+        lines = hdr(name) + ["int\tft_a(int a)", "{", ln, "\t** two */", "\treturn (a);", "}"]
         return name, "\n".join(lines) + "\n", len(hdr(name)) + 3
     if kind == "block-interior-tabs":
         mid = pad_to("**\tint\tx;\t", "", n, "c")
